@@ -15,7 +15,7 @@ from models import settings as S
 PROPERTY = 'C19'
 LEVEL = 'fault_enumeration'
 EXHAUSTIVE_SWEEP = True
-RULE_TEXT = ('runs = full product spawn site (33 site x phase placements: run/%/$ and every program-as-text-source / '
+RULE_TEXT = ('runs = full product spawn site (all site x phase placements - the evidence key sweep_runs / 48 gives their number: run/%/$ and every program-as-text-source / '
              'transformer / matcher / stdin form in each phase it can be written in, the ATC under the command-line, '
              'file-interpreter and source-interpreter actors) x child behaviour (6) x timeout configuration (8); then '
              'seeded random cases with several sites, several slow children and random timeout histories. '
@@ -52,6 +52,11 @@ SITES = [
     ('exists_file_matcher_run', ('assert',), ['exists -rel-act g.txt : run % {S}'], 'matcher'),
     ('dir_contents_every_file_run', ('assert',), ['dir-contents -rel-act gd : every file : run % {S}'], 'matcher'),
     ('stdout_equals_program', ('assert',), ['stdout equals -stdout-from % {S}'], 'text_source'),
+    ('run_program_symbol', MULTI, ['run @ PS{N} arg'], 'instr'),
+    ('file_contents_of_transformed_by_run', MULTI, ['file f{N}.txt = -contents-of -rel-act g.txt -transformed-by run % {S}'],
+     'transformer'),
+    ('exists_contents_matcher_run', ('assert',), ['exists -rel-act g.txt : contents run % {S}'], 'matcher'),
+    ('atc_program_symbol', ('act',), ['@ PS{N} actarg'], 'atc'),
     ('atc_command_line', ('act',), ['% {S}'], 'atc'),
     ('atc_shell', ('act',), ['$ {S}'], 'atc'),
     ('atc_file_interpreter', ('act',), ['src.py a1'], 'atc_file'),
@@ -221,6 +226,9 @@ def render(plan):
             lines.append('file g.txt = "g"')
             lines.append('dir gd')
             lines.append('file gd/x.txt = "x"')
+            for r in plan['sites']:
+                if r['site'] in ('run_program_symbol', 'atc_program_symbol'):
+                    lines.append('def program PS%d = %% %s' % (r['n'], r['tag']))
         for e in plan['layout'][ph]:
             if e[0] == 'probe':
                 lines.append('% ' + e[1])
